@@ -191,6 +191,44 @@ fn run(ctx: &mut Ctx) {
                 }
             }
         }
+        // (b2) two grammars in which the same text is a quoted literal in one and a regex in the
+        // other, and two that use the same macro name with different bodies: anything remembered
+        // between files by the text of a terminal or the name of a macro shows here
+        let pairs: [(&str, &str); 2] = [
+            ("grammar;\npub S: u32 = { \".\" => 1, r\"[0-9]+\" => 3 };\n", "grammar;\npub S: u32 = { r\".\" => 1, \"[0-9]+\" => 3 };\n"),
+            ("grammar;\nM<X>: Vec<X> = { <X> => vec![<>] };\npub S = M<\"a\">;\n", "grammar;\nM<X>: Vec<X> = { <a:X> <b:X> => vec![a, b] };\npub S = M<\"a\">;\n"),
+        ];
+        for (pi, (ga, gb)) in pairs.iter().enumerate() {
+            let ra = cli_output(&cli, &dir, ga);
+            let rb = cli_output(&cli, &dir, gb);
+            if ra.is_none() || rb.is_none() {
+                ctx.machinery(format!("batch pair {}: reference generation failed", pi));
+                continue;
+            }
+            for order in 0..2 {
+                let d = dir.join("batch2");
+                let _ = std::fs::remove_dir_all(&d);
+                std::fs::create_dir_all(d.join("in")).unwrap();
+                std::fs::create_dir_all(d.join("out")).unwrap();
+                // file names decide the processing order
+                let (first, second) = if order == 0 { (ga, gb) } else { (gb, ga) };
+                std::fs::write(d.join("in/a.lalrpop"), first).unwrap();
+                std::fs::write(d.join("in/b.lalrpop"), second).unwrap();
+                let mut c = lalrpop::Configuration::new();
+                c.never_use_colors().log_quiet().force_build(true).set_out_dir(d.join("out"));
+                let cap = d.join("cap.txt");
+                let (res, _) = drv::capture(&cap, || std::panic::catch_unwind(std::panic::AssertUnwindSafe(|| c.process_dir(d.join("in")).map_err(|e| e.to_string()))));
+                ctx.count("generations");
+                ctx.count("batch_members_after_another");
+                ctx.count("nontrivial");
+                let (want_a, want_b) = if order == 0 { (&ra, &rb) } else { (&rb, &ra) };
+                let got_a = std::fs::read_to_string(d.join("out/a.rs")).ok();
+                let got_b = std::fs::read_to_string(d.join("out/b.rs")).ok();
+                if !matches!(res, Ok(Ok(()))) || &got_a != want_a || &got_b != want_b {
+                    ctx.violation("batch-composition-changes-output", format!("pair {} order {}: processed together in one process the two grammars do not give what each gives alone in a fresh process (a.rs {}, b.rs {}, result {:?})", pi, order, if &got_a == want_a { "equal" } else { "differs" }, if &got_b == want_b { "equal" } else { "differs" }, res.as_ref().map(|r| r.is_ok()).unwrap_or(false)), json!({"pair": pi, "order": order, "first": first, "second": second}));
+                }
+            }
+        }
         // each alone via process_file, one after another in this process
         for (gi, g) in gs.iter().enumerate() {
             let out = drv::generate_in(&dir, g.as_bytes(), &GenOpts::default());
